@@ -169,6 +169,17 @@ def cases(tier, seed):
                                 "env": {"FCLONES_VERIF_DISK_KIND": "ssd", "FCV_TR_FAIL_PREFIX": "hex:" + C.content(vs[0])[:4].hex(),
                                         "FCV_TR_MARKER": "@TMPDIR@/../failed-once"},
                                 "meta": meta, "repeat": 2, "judge_only_last": True})
+    # files of DIFFERENT lengths that a transform makes identical (two bytes each), grouped three times with --cache:
+    # what the warm runs take from the cache (hash AND transformed length) must give the same classes as the cold run
+    lits = ["aa" + "x" * 3, "aa" + "y" * 10, "aa" + "z" * 300, "bbq", "bb" + "w" * 20]
+    tree = [{"p": "r1/d%d/f%d" % (i % 2, i), "k": "file", "c": ["lit", t]} for i, t in enumerate(lits)]
+    for mode in ("pipe", "in"):
+        for flt in ([], ["--rf-over", "0"], ["--rf-over", "2"], ["--unique"]):
+            for threads in (["-t", "1"], []):
+                meta = {"L": 0, "combo": [0, 0, 0, 1, 1], "layout": "warm_cache_transformed_lengths", "hard": False,
+                        "filter": " ".join(flt) or "default", "disk": "ssd", "extra": ["--cache"] + threads, "tr": ["shrink", mode]}
+                out.append({"tree": tree, "roots": ["r1"], "args": ["--min", "0", "--cache"] + flt + threads + G.transform_args("shrink", mode),
+                            "env": {"FCLONES_VERIF_DISK_KIND": "ssd"}, "meta": meta, "repeat": 3})
     # overlapping input paths under a depth limit: what one root may not descend into, another root reaches directly
     tree = [{"p": "r1/f0", "k": "file", "c": ["base", 10, 0]}, {"p": "r1/d1/f1", "k": "file", "c": ["base", 10, 0]},
             {"p": "r1/d1/sub/f2", "k": "file", "c": ["base", 10, 0]}, {"p": "r1/d1/sub/deep/f3", "k": "file", "c": ["base", 10, 0]},
